@@ -51,6 +51,24 @@ CHECKS.update({
          "look-arounds on the empty pattern, conditionals: group count, numbering and names equal the documented capture list, and matching is unchanged "
          "(is_case_insensitive scoped to its group) on every text up to the bound.", _PNOTE, "DESIGN.md §2 C08"),
 })
+_CNOTE = ("Trusts z3 and CPython's re parser (structural reading of the emitted class text into intervals/categories); specified sets written from the "
+          "documentation in props/clsmodel.py. Arguments / operand geometry are an enumerated family; hash seeds are real interpreters enumerated; the candidate character is "
+          "decided by the solver over the whole code-point range (Unicode-only \\d \\s \\w members excluded as the property allows).")
+_E1NOTE = ("Trusts CrossHair 0.0.110 + z3 with the plugin patches listed in DESIGN.md §1 (identity-preserving; each explored path is re-run concretely on a model of its "
+           "path condition and must agree - concolic self-validation), CPython's re parser (executed symbolically) as the reader of the emitted text, and the reference "
+           "generator vlib/dsl.py. Bounded in the number of symbolic characters per string and in the enumerated argument positions.")
+CHECKS.update({
+ "C01": ("symbolic execution (CrossHair/z3) of the real constructors + real re parser on a symbolic string argument, all paths; plus bounded SMT (z3) exact encoding for concrete boundary literals",
+         "Every str-accepting position (about 100 incl. spellings): for EVERY string of the stated length (every code point per character) the emitted text is read by the "
+         "real parser exactly as the fully parenthesised reference in which the string contributes only literal characters ('Confirmed over all paths'); longer boundary "
+         "literals are decided against the reference for all texts up to the bound.", _E1NOTE, "DESIGN.md §2 C01"),
+ "C06": ("real constructors under enumerated hash seeds; z3 decides membership of every code point (minterm abstraction) between the emitted class and the specified set",
+         "All named classes/tokens and AnyFrom/AnyButFrom/AnyBetween/AnyButBetween over a boundary pool (every in-class metacharacter, neighbours, tokens, invalid arguments): "
+         "no code point whose membership differs from the specified set; documented exceptions by class.", _CNOTE, "DESIGN.md §2 C06"),
+ "C07": ("real class algebra under enumerated hash seeds; z3 decides membership of every code point between the result and Python-set algebra on the operands' specified sets",
+         "Union, subtraction, negation and double negation over enumerated interval geometry (adjacent/overlapping/nested/equal-end ranges around every metacharacter), negated and "
+         "mixed operands, Any, tokens and bare characters: exact set algebra over the whole code-point range, EmptyClassException iff nothing is left.", _CNOTE, "DESIGN.md §2 C07"),
+})
 NOT_YET = "check not built yet in this round (work in progress; see DESIGN.md for the planned engine)"
 
 m = {
@@ -61,6 +79,9 @@ m = {
            "baseline_off_cmd": "cd /repo && /venv/bin/python -m pytest -ra -q -p no:cacheprovider --timeout=900 --continue-on-collection-errors",
            "source_commits": [], "add_only": True},
  "engines": [
+   {"name": "symx", "path": "vlib/symx/", "serves_properties": ["C01"],
+    "kind_free_text": "CrossHair symbolic execution of the real pregex constructors together with CPython's pure-Python re parser; symbolic characters / ints; "
+                      "per-path concolic self-validation; counterexamples followed up by rexsat and replayed"},
    {"name": "rexsat", "path": "vlib/rexsat.py", "serves_properties": sorted(CHECKS),
     "kind_free_text": "SMT (z3) encodings of CPython re semantics for the concrete pattern emitted by the real code and a symbolic text: "
                       "RegLan (unbounded), relational bounded, exact backtracking-order bounded"},
